@@ -255,12 +255,12 @@ MIRI_FLAGS = "-Zmiri-disable-isolation -Zmiri-tree-borrows -Zmiri-ignore-leaks"
 
 
 class MiriRun:
-    """A handful of tiny histories through the byte-copy helpers under Miri (whole engine: ~5 min per program here, plus
-    ~10 min when the Miri build of the harness is stale). Runs in a background thread next to the rest of the thorough
+    """A handful of tiny histories through the byte-copy helpers under Miri (whole engine: 5-10 min per program on this
+    loaded machine, plus ~10 min when the Miri build of the harness is stale; deadline 22 min after the start of the check). Runs in a background thread next to the rest of the thorough
     tier: the first program alone (it pays for the build), the others in parallel. Undefined behaviour is a violation;
     everything else that goes wrong (watchdog, no output) is inconclusive. The native run stays the judge of semantics."""
 
-    def __init__(self, seed, feats, avoid, count=6):
+    def __init__(self, seed, feats, avoid, count=3):
         import threading
         self.hs = []
         for i in range(count):
@@ -268,6 +268,7 @@ class MiriRun:
             self.hs.append({"steps": steps, "lines": m.lines, "index": i})
         self.dir = runner.workdir("c15-miri")
         self.results = [None] * count
+        self.killed = False
         self.procs = []
         self.t0 = time.time()
         self.thread = threading.Thread(target=self._work, daemon=True)
@@ -299,6 +300,9 @@ class MiriRun:
         if "Undefined Behavior" in err:
             self.results[i] = ("ub", err[-2500:])
             return
+        if self.killed:
+            self.results[i] = ("watchdog", "")
+            return
         try:
             with open(op) as f:
                 r = json.loads(f.readline())
@@ -320,6 +324,7 @@ class MiriRun:
     def collect(self, chk, wait_s):
         self.thread.join(timeout=max(1, wait_s))
         if self.thread.is_alive():
+            self.killed = True
             for p in self.procs:
                 try:
                     p.kill()
@@ -419,7 +424,7 @@ def run(tier, seed):
     finally:
         pool.close()
     if miri is not None:
-        miri_info = miri.collect(chk, max(60, 1500 - (time.time() - chk.t0)))
+        miri_info = miri.collect(chk, max(60, 1320 - (time.time() - chk.t0)))
     replay_known(chk, findings, native)
     chk.assumptions = [
         "vlib/models/bytes.py (ECMA-262 2024 text: IsTypedArrayOutOfBounds / IsViewOutOfBounds re-evaluated per access, conversions by exact integer arithmetic) is the specification",
